@@ -1682,7 +1682,7 @@ impl SymbolTable {
         format!("{self}")
     }
 
-    pub fn drop(&mut self, file_path: PathId, prj: Option<StrId>) {
+    pub fn drop(&mut self, file_path: PathId, prj: Option<StrId>) -> Vec<SymbolId> {
         fn is_drop_symbol(symbol: &Symbol, file_path: PathId, prj: Option<StrId>) -> bool {
             if symbol.token.source != file_path {
                 return false;
@@ -1739,6 +1739,11 @@ impl SymbolTable {
         for symbols in self.name_table.values_mut() {
             symbols.retain(|x| !drop_list.contains(x));
         }
+        // Name resolution asks `name_table.contains_key(name)` to tell a name
+        // nobody declares from a declared one; an emptied bucket left behind
+        // would keep answering "declared" for a name whose last declaration
+        // was just dropped.
+        self.name_table.retain(|_, symbols| !symbols.is_empty());
 
         for tokens in self.reference_table.values_mut() {
             tokens.retain(|x| !is_drop_token(x, file_path, prj));
@@ -1747,6 +1752,8 @@ impl SymbolTable {
         self.sv_shadows.retain(|x| x.token.source != file_path);
 
         scope::drop_symbols(&dropped);
+
+        drop_list
     }
 
     pub fn add_reference(&mut self, target: SymbolId, token: &Token) {
@@ -3432,7 +3439,17 @@ pub fn dump() -> String {
 
 pub fn drop(file_path: PathId, prj: Option<StrId>) {
     clear_resolve_caches();
-    SYMBOL_TABLE.with(|f| f.borrow_mut().drop(file_path, prj))
+    let dropped = SYMBOL_TABLE.with(|f| f.borrow_mut().drop(file_path, prj));
+    // The structural generic-instance index lives outside the table: forget
+    // the instances (and templates) that were just dropped, or it keeps naming
+    // ids that no longer exist and the next analysis of the file, which
+    // creates the same instances afresh, collides with them.
+    if !dropped.is_empty() {
+        GENERIC_INSTANCE_INDEX.with(|f| {
+            f.borrow_mut()
+                .retain(|key, id| !dropped.contains(id) && !dropped.contains(&key.1))
+        });
+    }
 }
 
 pub fn add_reference(target: SymbolId, token: &Token) {
